@@ -30,6 +30,7 @@ import (
 	utiliptables "tkestack.io/galaxy/pkg/utils/iptables"
 	"verif/harness/evid"
 	"verif/harness/fakes"
+	"verif/harness/hostports"
 )
 
 // polWorld is the informer-cache side of the PolicyManager, written by the harness "like an informer would".
@@ -191,9 +192,9 @@ func (w *polWorld) eventLoop(run *evid.Run, stop <-chan struct{}, done chan<- st
 // host ports
 
 // concPorts hands out the fixed host ports of the concurrent phase (lock-file blocks, see ports.go).
-var concPorts = newPortAllocator()
+var concPorts = hostports.New()
 
-func reserveFixedPort(shard int) int32 { return concPorts.take() }
+func reserveFixedPort(shard int) int32 { return concPorts.Take() }
 
 // addPorts gives about 40% of the concurrent pods container ports that make parsePorts return something.
 func addPorts(run *evid.Run, rng *rand.Rand, p *podModel, shard int) {
